@@ -40,7 +40,7 @@ RECURSIVE Occ(_, _)
 Occ(g, nm) == (IF g.k = "custom" /\ g.n = nm THEN 1 ELSE 0)
               + (IF "c" \in DOMAIN g THEN LET RECURSIVE Sum(_) Sum(i) == IF i > Len(g.c) THEN 0 ELSE Occ(g.c[i], nm) + Sum(i + 1) IN Sum(1) ELSE 0)
 CountOp(log, nm, op) == Cardinality({i \in 1..Len(log) : log[i].type = nm /\ log[i].op = op})
-CustomNames == {"CEmail", "CCelsius", "CTags", "CPoint", "CObjID", "COpt"}
+CustomNames == {"CEmail", "CCelsius", "CTags", "CPoint", "CObjID", "COpt", "CRatio"}
 \* COpt's codec omits some values by itself (Omit), so its Write / Read calls are not one per occurrence
 Counted == CustomNames \ {"COpt"}
 \* value equality with custom markers kept: structural equality of the projections, nil vs empty collections identified
